@@ -494,3 +494,93 @@ Proof.
   - apply Hbd in Hin. discriminate.
   - reflexivity.
 Qed.
+
+(* ---- stability until the reported transition *)
+Lemma fold_app_length : forall t evs s, length (fold_left (app_ev t) evs s) = length s.
+Proof.
+  intros t evs. induction evs as [|e r IH]; intros s; cbn [fold_left]; auto.
+  rewrite IH. apply upd_length.
+Qed.
+
+Lemma Forall2_nth_error : forall (A : Type) (R : A -> A -> Prop) (s s' : list A), length s = length s' ->
+  (forall j a b, nth_error s j = Some a -> nth_error s' j = Some b -> R a b) -> Forall2 R s s'.
+Proof.
+  intros A R s. induction s as [|x r IH]; intros [|y r'] Hl H; try discriminate; constructor.
+  - apply (H 0%nat); reflexivity.
+  - apply IH; [now inversion Hl|]. intros j a b Ha Hb. apply (H (S j)); assumption.
+Qed.
+
+Lemma final_slots_rel : forall c d t t', valid_date d -> wf_sched c d -> t4_le t t' = true ->
+  Forall2 (slot_rel t') (final_slots c d t) (final_slots c d t').
+Proof.
+  intros c d t t' Hd (Hr & Hev & Hdp & Hw) Hle.
+  pose proof (active_nodup d (excs c) Hd Hev Hdp) as Hnd.
+  assert (Hall : forall x, In x (excs c) -> wf_event x) by now apply Forall_forall.
+  assert (Hinit : forall x, In x (active d (excs c)) -> nth_error empty_slots (idx x) = Some (None, None)).
+  { intros x Hx. apply nth_error_empty_slots. apply idx_lt. apply Hall. now apply active_in in Hx. }
+  apply Forall2_nth_error.
+  - unfold final_slots. now rewrite !fold_app_length.
+  - intros j a b Ha Hb. unfold final_slots in Ha, Hb.
+    rewrite (fold_char t _ empty_slots Hinit Hnd) in Ha.
+    rewrite (fold_char t' _ empty_slots Hinit Hnd) in Hb.
+    destruct (find_idx j (active d (excs c))) as [e|].
+    + inversion Ha; inversion Hb; subst. intro Hq. now apply tv_slot_stable.
+    + assert (a = b) by congruence. subst b. intro. reflexivity.
+Qed.
+
+Theorem eval_stable : forall c d t t' v n, valid_date d -> wf_sched c d ->
+  eval c d t = Ok (Some (v, n)) -> t4_le t t' = true -> t4_lt t' n = true ->
+  exists n', eval c d t' = Ok (Some (v, n')).
+Proof.
+  intros c d t t' v n Hd Hwf H Hle Hlt.
+  pose proof (final_slots_rel c d t t' Hd Hwf Hle) as Hrel.
+  rewrite (eval_shape c d t Hd Hwf) in H. rewrite (eval_shape c d t' Hd Hwf).
+  destruct (match match_date_range d (eff c) with Ok true => true | _ => false end); [|discriminate].
+  destruct (scan (final_slots c d t) next_day) as [[v0|] e0] eqn:Hscan.
+  - inversion H; subst v0 e0.
+    pose proof (scan_stable t' _ _ next_day next_day _ _ Hrel Hscan Hlt) as Hs'.
+    destruct (scan (final_slots c d t') next_day) as [ov' e'] eqn:Hscan'. cbn [fst] in Hs'. subst ov'. eauto.
+  - inversion H as [Hdl].
+    assert (Hlt0 : t4_lt t' e0 = true).
+    { eapply t4_lt_le_trans; [exact Hlt|].
+      pose proof (day_loop_le (weekly_day c d) t (dflt c) (dflt c) e0) as Hle0. now rewrite Hdl in Hle0. }
+    pose proof (scan_stable t' _ _ next_day next_day _ _ Hrel Hscan Hlt0) as Hs'.
+    destruct (scan (final_slots c d t') next_day) as [ov' e'] eqn:Hscan'. cbn [fst] in Hs'. subst ov'.
+    pose proof (day_loop_stable _ t t' (dflt c) (dflt c) e0 e' v n Hle Hdl Hlt) as Hv.
+    destruct (day_loop (weekly_day c d) t' (dflt c) (dflt c) e') as [v' n'] eqn:Hdl'. cbn [fst] in Hv. subst v'. eauto.
+Qed.
+
+(* ---- the reported transition lies strictly ahead and not after midnight *)
+Lemma final_slots_ahead : forall c d t sl q, valid_date d -> wf_sched c d -> valid_time t ->
+  In sl (final_slots c d t) -> snd sl = Some q -> t4_lt t q = true.
+Proof.
+  intros c d t sl q Hd (Hr & Hev & Hdp & Hw) Ht Hin Hq.
+  pose proof (active_nodup d (excs c) Hd Hev Hdp) as Hnd.
+  assert (Hall : forall x, In x (excs c) -> wf_event x) by now apply Forall_forall.
+  assert (Hinit : forall x, In x (active d (excs c)) -> nth_error empty_slots (idx x) = Some (None, None)).
+  { intros x Hx. apply nth_error_empty_slots. apply idx_lt. apply Hall. now apply active_in in Hx. }
+  apply In_nth_error in Hin. destruct Hin as [j Hj]. unfold final_slots in Hj.
+  rewrite (fold_char t _ empty_slots Hinit Hnd) in Hj.
+  destruct (find_idx j (active d (excs c))) as [e|].
+  - inversion Hj; subst sl. destruct (tv_slot_ahead _ _ _ _ Ht Hq) as [H | H]; auto. discriminate.
+  - destruct (Nat.lt_ge_cases j 16) as [Hlt | Hge].
+    + rewrite nth_error_empty_slots in Hj by assumption. inversion Hj; subst sl. discriminate.
+    + assert (Hn : (length empty_slots <= j)%nat) by (cbn; lia). apply nth_error_None in Hn.
+      pose proof (eq_trans (eq_sym Hn) Hj) as Hc. discriminate Hc.
+Qed.
+
+Theorem eval_next_ahead : forall c d t v n, valid_date d -> wf_sched c d -> valid_time t ->
+  eval c d t = Ok (Some (v, n)) -> t4_lt t n = true /\ t4_le n next_day = true.
+Proof.
+  intros c d t v n Hd Hwf Ht H. rewrite (eval_shape c d t Hd Hwf) in H.
+  destruct (match match_date_range d (eff c) with Ok true => true | _ => false end); [|discriminate].
+  pose proof (scan_ahead t (final_slots c d t) next_day
+                (fun sl q Hin Hq => final_slots_ahead c d t sl q Hd Hwf Ht Hin Hq) (t4_lt_next_day t Ht)) as Hsa.
+  pose proof (scan_le (final_slots c d t) next_day) as Hsl.
+  destruct (scan (final_slots c d t) next_day) as [[v0|] e0]; cbn [snd] in *.
+  - inversion H; subst. auto.
+  - inversion H as [Hdl]. split.
+    + pose proof (day_loop_ahead (weekly_day c d) t (dflt c) (dflt c) e0 Hsa) as Ha. now rewrite Hdl in Ha.
+    + pose proof (day_loop_le (weekly_day c d) t (dflt c) (dflt c) e0) as Hl. rewrite Hdl in Hl.
+      eapply t4_le_trans; eauto.
+Qed.
